@@ -198,6 +198,18 @@ def run(chk):
     chk.guard(r05_2, chk)
     chk.guard(r05_3, chk)
     chk.guard(r05_4, chk)
+    # forms.py is an anchor of C05: the propagators work in keplerian_mean form and return cartesian states, so the clauses of
+    # C01 on the chain cartesian <-> keplerian <-> eccentric <-> mean are part of this check
+    from . import c01
+    for rid, text in (("R01.6", "(dependency) M2E is Newton on the sibling's Kepler equation"), ("R01.8", "(dependency) true <-> eccentric anomaly pairs mutually inverse; sign carried by sin ν"),
+                      ("R01.11", "(dependency) keplerian → cartesian textbook terms"), ("R01.13", "(dependency) cartesian → keplerian inverts it"), ("R01.2", "(dependency) element order")):
+        chk.rule(rid, text)
+    chk.guard(c01.r01_2, chk, ft)
+    chk.guard(c01.r01_6, chk, ft)
+    chk.guard(c01.r01_8, chk, ft)
+    chk.guard(c01.r01_8b, chk, ft)
+    chk.guard(c01.r01_11, chk, ft)
+    chk.guard(c01.r01_13, chk, ft)
     chk.assume("first-order secular J2 rates: dΩ = −3/2 n J2 (Re/p)² cos i, dω = 3/4 n J2 (Re/p)² (4 − 5 sin²i), "
                "dM − n = 3/4 n J2 (Re/p)² √(1−e²) (2 − 3 sin²i)")
     chk.assume("C01 (R01.1, R01.12) for the element order of keplerian_mean and Infos.n")
